@@ -244,7 +244,7 @@ def f_header(rng, img, ctx):
         return None
     out = bytearray(img)
     what = rng.weighted([("magic_known", 4), ("magic_near", 2), ("crlf", 1), ("pep552", 3), ("ts_size", 2),
-                         ("magic_random", 1), ("magic_1x", 1)])
+                         ("magic_random", 1), ("magic_1x", 1), ("magic_zero", 1)])
     d = {"what": what}
     if what == "magic_known" and ctx.magics:
         m = rng.choice(ctx.magics)
@@ -272,6 +272,12 @@ def f_header(rng, img, ctx):
         d["value"] = v
     elif what == "magic_random":
         out[0:4] = rng.bytes(4)
+        d["bytes"] = list(out[0:4])
+    elif what == "magic_zero":
+        # PyPy 3.2 stores a magic starting with the character '0'; load.py special-cases that first byte
+        out[0:1] = b"0"
+        if rng.chance(1, 2):
+            out[1:4] = rng.choice([b"\x0c\r\n", b"\x00\r\n", b"000", rng.bytes(3)])
         d["bytes"] = list(out[0:4])
     elif what == "magic_1x":
         m = rng.choice([39170, 39171, 11913, 5892, 20121])
